@@ -196,6 +196,13 @@ def run_real(ws, schema, rec, item, loader_factory=None):
     import ZConfig
     base = ws.materialise(item["files"])
     main = os.path.join(base, item["main"])
+    if item["meta"].get("main_link") and not os.path.islink(main):
+        # the configuration is named through a symbolic link: relative references resolve against the
+        # resource as named, not against the place the link leads to
+        real = os.path.join(base, "zreal", os.path.basename(main))
+        os.makedirs(os.path.dirname(real), exist_ok=True)
+        os.replace(main, real)
+        os.symlink(real, main)
     ovs = list(item["opts"])
     try:
         if loader_factory is not None:
